@@ -695,6 +695,39 @@ func checkC18Plugin(c C18Case) iso.Result {
 		}
 	}
 	sort.Strings(diffs)
+	// falco gives every plugin run five seconds; on a saturated machine a run is killed now and then and is
+	// reported as failed. That explains missing diagnostics exactly when (a) nothing is reported that was not
+	// returned, (b) every message of one plugin is short by the same number of runs, and (c) there are at
+	// least as many additional failure reports as runs are short. Such a case decides nothing (counted).
+	if extra := others - wantOthers; extra > 0 {
+		short := map[string]int{} // plugin prefix -> runs short
+		consistent := true
+		for m, n := range want {
+			pfx := m[:strings.LastIndex(m, "-")+1]
+			d := n - got[m]
+			if d < 0 {
+				consistent = false
+			}
+			if prev, ok := short[pfx]; ok && prev != d {
+				consistent = false
+			}
+			short[pfx] = d
+		}
+		for m := range got {
+			if want[m] == 0 {
+				consistent = false
+			}
+		}
+		total := 0
+		for _, d := range short {
+			total += d
+		}
+		if consistent && total <= extra {
+			col.Label("inconclusive:plugin-run-killed-by-falco-timeout")
+			col.Count("plugin-runs-failed-under-load", extra)
+			return col.Done()
+		}
+	}
 	if len(diffs) > 0 || others != wantOthers {
 		var all []string
 		for _, e := range lt.Errors {
